@@ -331,6 +331,38 @@ Definition run_ws (c : cfg) (rq : request) (fs : list frame) : trace :=
   {| t_connect := connect_of c; t_events := ESend (init_msg c) :: evs; t_fin := finish p; t_spans := [] |}.
 
 (* ------------------------------------------------------------------------------------------ *)
+(* Histories: several subscriptions on ONE client object.  The client object holds url, ws_headers,
+   ws_origin and the init payload; execute_ws works on `self.ws_headers.copy()` and a fresh
+   merged_kwargs dict, so a call hands the object back unchanged — the model threads the object
+   through the calls exactly to say that.                                                        *)
+
+Record client := {
+  cl_url : string;
+  cl_headers : list (string * json);
+  cl_origin : option string;
+  cl_init_payload : option json }.
+
+Record callkw := {
+  kw_headers : option (list (string * json));   (* extra_headers= of this call *)
+  kw_other : list (string * json) }.             (* the other keyword arguments of this call *)
+
+Definition cfg_of (cl : client) (k : callkw) : cfg :=
+  {| c_url := cl_url cl; c_headers := cl_headers cl; c_origin := cl_origin cl;
+     c_init_payload := cl_init_payload cl; c_kw_headers := kw_headers k; c_kw_other := kw_other k |}.
+
+Definition call (cl : client) (k : callkw) (rq : request) (fs : list frame) : trace * client :=
+  (run_ws (cfg_of cl k) rq fs, cl).
+
+Fixpoint run_history (cl : client) (calls : list (callkw * request * list frame)) : list trace * client :=
+  match calls with
+  | [] => ([], cl)
+  | (k, rq, fs) :: r =>
+      let '(t, cl') := call cl k rq fs in
+      let '(ts, cl'') := run_history cl' r in
+      (t :: ts, cl'')
+  end.
+
+(* ------------------------------------------------------------------------------------------ *)
 (* OpenTelemetry twin.  tracer=false: execute_ws delegates to _execute_ws (a textual copy of the
    plain client); tracer=true: _execute_ws_with_telemetry and the *_with_telemetry helpers, which
    re-implement the message handler inside spans.  Written out separately on purpose.          *)
